@@ -76,7 +76,7 @@ class Variables:
         re.DOTALL | re.VERBOSE,
     )
 
-    def inline_variables(self, sql: str) -> str:
+    def inline_variables(self, sql: str, escape_percent: bool = False) -> str:
         def replace(match: re.Match) -> str:
             name = match.group(1)
             if name is None or name.isdigit():
@@ -84,7 +84,8 @@ class Variables:
                 return match.group(0)
             for var_name, value in self._variables.items():
                 if var_name.upper() == name.upper():
-                    return value
+                    # escape_percent: the statement is about to be %-formatted with client-side parameters
+                    return value.replace("%", "%%") if escape_percent else value
             raise snowflake.connector.errors.ProgrammingError(
                 msg=f"Session variable '${name.upper()}' does not exist"
             )
